@@ -3,13 +3,14 @@ package main
 import (
 	"bytes"
 	"encoding/hex"
-	"math"
-	"unicode/utf8"
+	stdjson "encoding/json"
 	"fmt"
+	"math"
 	"os/exec"
 	"reflect"
 	"strconv"
 	"strings"
+	"unicode/utf8"
 
 	"github.com/polydawn/refmt"
 	"github.com/polydawn/refmt/cbor"
@@ -99,7 +100,7 @@ func orDash(s string) string {
 }
 
 // clone <aid> <tid> <val>: dst = Clone(src); then probe every mutable location for aliasing
-func opClone(p []string) string {
+func opClone(p []string, byValue bool) string {
 	a := atlasByID(p[0])
 	id, _ := strconv.Atoi(p[1])
 	t := typeByID[id]
@@ -111,7 +112,14 @@ func opClone(p []string) string {
 	src.Elem().Set(rv)
 	dst := reflect.New(t)
 	before := dumpValue(src.Elem())
-	cerr, panicked := safely(func() error { return refmt.CloneAtlased(src.Interface(), dst.Interface(), a.atl) })
+	// the source is handed over by pointer or by value (a by-value array / struct still shares whatever it references)
+	srcArg := func() interface{} {
+		if byValue {
+			return src.Elem().Interface()
+		}
+		return src.Interface()
+	}
+	cerr, panicked := safely(func() error { return refmt.CloneAtlased(srcArg(), dst.Interface(), a.atl) })
 	if panicked {
 		return "I=-/panic O=viol:panic"
 	}
@@ -132,7 +140,7 @@ func opClone(p []string) string {
 	}
 	if oracle == "ok" {
 		dst2 := reflect.New(t)
-		if e, pn := safely(func() error { return refmt.CloneAtlased(src.Interface(), dst2.Interface(), a.atl) }); e == nil && !pn {
+		if e, pn := safely(func() error { return refmt.CloneAtlased(srcArg(), dst2.Interface(), a.atl) }); e == nil && !pn {
 			want := dumpValue(dst2.Elem())
 			mutateAll(src.Elem(), map[uintptr]bool{})
 			if dumpValue(dst2.Elem()) != want {
@@ -243,6 +251,16 @@ func opPump(p []string) string {
 	oracle := "ok"
 	if class == "panic" {
 		oracle = "viol:panic"
+	}
+	// an independent reader must accept what the pump accepted (JSON source; refmt's one leniency, a comma before a
+	// closing bracket, removed first)
+	if class == "ok" && p[0] == "json" {
+		// (after a top-level number the decoder has read one look-ahead byte, which stays in its push-back)
+		raw := data[:len(data)-in.Len()]
+		consumed := bytes.TrimSpace(raw)
+		if !stdjson.Valid(lenient(consumed)) && !(len(raw) > 0 && stdjson.Valid(lenient(bytes.TrimSpace(raw[:len(raw)-1])))) {
+			oracle = "viol:pump-accepted-a-text-that-is-not-json"
+		}
 	}
 	// the slow route: Unmarshal into an untyped variable, then Marshal; compare VALUES (spelling and key order may differ)
 	slow := "-"
